@@ -672,17 +672,17 @@ def p1(h, st):
     c = _blank_circuit(_gates=seq, _qubits_simulated=N)
     before = dict(c.__dict__)
     out = h.call(C, "Circuit.inverse", c)
-    h.check("exactly one constructor call", len(log) == 1)
+    h.shape("exactly one constructor call", len(log) == 1)
     a = _init_args(log[0])
     gs = a["gates"]
     h.check("same fixed width", a["n_qubits"] is N)
     h.check("source circuit untouched", all(c.__dict__[k] is v for k, v in before.items()) and snapshot(elem.__dict__) == eb)
-    if not isinstance(gs, GSeq):
-        h.check("gate list derived from self._gates", False)
-    elif gs.n == "empty":
-        h.check("empty circuit: empty inverse", gs.describe() == ("comp", ("reversed", ("atom", "self._gates"))) and inv_log == [])
+    h.shape("gate list derived from self._gates by one comprehension", isinstance(gs, GSeq) and gs.kind == "comp" and gs.src.describe() in (("reversed", ("atom", "self._gates")), ("atom", "self._gates")))
+    if gs.n == "empty":
+        h.check("empty circuit: empty inverse", inv_log == [])
     else:
-        h.check("gates taken in REVERSED order, none dropped", gs.describe() == ("comp", ("reversed", ("atom", "self._gates"))) and gs.kept is True)
+        h.check("gates taken in REVERSED order", gs.src.describe() == ("reversed", ("atom", "self._gates")))
+        h.check("no gate dropped", gs.kept is True)
         h.check("each gate replaced by its Gate.inverse()", len(inv_log) == 1 and inv_log[0][0][0] is elem and isinstance(gs.image, Opaque) and gs.image._info.get("of") is elem)
     h.done()
 
@@ -725,16 +725,12 @@ def p2(h, st):
     stub(h, C, "Circuit.width", lambda a, k: w)
     before = dict(c.__dict__)
     h.call(C, "remove_small_rotations", c, thr, st["remove_qubits"])
-    h.check("exactly one constructor call", len(log) == 1)
+    h.shape("exactly one constructor call", len(log) == 1)
     a = _init_args(log[0])
     gs = a["gates"]
     h.check("source circuit and its gate untouched", all(c.__dict__[k] is v for k, v in before.items()) and snapshot(g.__dict__) == gb)
     h.check("fixed width: the source's width, or none when qubits may be removed", (a["n_qubits"] in ("<absent>", None)) if st["remove_qubits"] else (a["n_qubits"] is w))
-    if not isinstance(gs, GSeq):
-        h.check("gate list derived from circuit._gates", False)
-        h.done()
-        return
-    h.check("order-preserving filter of the gate sequence", gs.describe() == ("comp", ("atom", "circuit._gates")))
+    h.shape("gate list derived from circuit._gates by one comprehension (order-preserving filter)", isinstance(gs, GSeq) and gs.describe() == ("comp", ("atom", "circuit._gates")))
     if gs.n == "empty":
         h.done()
         return
